@@ -386,7 +386,7 @@ func checkMathext(c mxCase) *vk.Failure {
 		if !within("airy-deriv-series", cmplx.Abs(aip-wantp), 0, 1e-12*(1+cmplx.Abs(wantp))) {
 			F("maclaurin-derivative", "AiryAiDeriv(%v)=%v but the Maclaurin series gives %v", z, aip, wantp)
 		}
-		if c2 := mathext.AiryAi(cmplx.Conj(z)); !within("airy-conj", cmplx.Abs(c2-cmplx.Conj(ai)), 0, 1e-15*(1+cmplx.Abs(ai))) {
+		if c2 := mathext.AiryAi(cmplx.Conj(z)); !within("airy-conj", cmplx.Abs(c2-cmplx.Conj(ai)), 0, 1e-13*(1+cmplx.Abs(ai))) {
 			F("conjugate-symmetry", "AiryAi(conj z)=%v but conj AiryAi(z)=%v", c2, cmplx.Conj(ai))
 		}
 	}
@@ -417,6 +417,10 @@ func TestMathext(t *testing.T) {
 		case "GammaIncInv":
 			c.A = vk.F(genShape(t, "a", 0.3, 50, 1))
 			c.Y = vk.F(genY(t))
+			if rapid.IntRange(0, 7).Draw(t, "ydeep") == 0 {
+				// forall y in [0,1]: the inverse must not fail far in the tail
+				c.Y = vk.F(rapid.SampledFrom([]float64{1e-9, 1e-14, 1e-20, 1e-100, 1e-300}).Draw(t, "ytiny"))
+			}
 		case "IncBeta", "IncBetaInv":
 			c.A = vk.F(genShape(t, "a", 0.3, 50, 1))
 			c.B = vk.F(genShape(t, "b", 0.3, 50, 1))
